@@ -14,16 +14,24 @@ PROPERTY = "C24"
 FUNCTIONS = ["wannierberri.wannierisation.kpoint_and_neighbours.Kpoint_and_neighbours.__init__", "Kpoint_and_neighbours.calc_Z",
              "Kpoint_and_neighbours.rotate_to_projections", "Kpoint_and_neighbours.update (localise=True/False, mix_ratio)",
              "Kpoint_and_neighbours.update_Mmn_opt", "wannierberri.utility.get_max_eig", "wannierberri.utility.orthogonalize",
-             "wannierberri.wannierisation.wannierise.wannierise (frozen / free / deselected masks from the windows, up to Wannierizer.add_kpoint)"]
+             "wannierberri.wannierisation.wannierise.wannierise (frozen / free / deselected masks from the windows, up to Wannierizer.add_kpoint)",
+             "wannierberri.wannierisation.wannierizer.Wannierizer (serial: add_kpoint, get_U_opt_full, update_Unb_all, update_all, update_wcc; thorough tier)"]
 BOUNDS = dict(quick=dict(nband="2..4, every frozen/free/deselected pattern with <= 2 free bands, or 3 free bands of which <= 1 Wannier function is built",
                          num_wann="1..2", nnb=2,
                          data="Mmn, amn, neighbour U, wcc phases: arbitrary symbolic complex; wb symbolic > 0; mix_ratio symbolic in (0,1]",
                          steps="__init__ (projection step) + one update (localise=True and False) [+ a second update with Z mixing: nband<=3, <=2 free bands]",
                          eigenvalues="eigh returns pairwise distinct eigenvalues (ties, which only permute equal entries in argsort, are explored in the thorough tier)",
                          windows="wannierise masks: nband 2..4, one k-point, symbolic sorted energies, symbolic nested windows"),
-              thorough=dict(nband="2..4, every pattern with <= 3 free bands (num_wann <= 2), <= 2 free bands (num_wann = 3), 4 free bands with one free Wannier function",
-                            num_wann="1..3", nnb=2, data="as quick", steps="as quick; second update for <= 2 free bands or one free Wannier function",
-                            eigenvalues="ties included for <= 2 free bands", windows="nband 2..5, explicit frozen_states as well"))
+              thorough=dict(nband="2..4: every pattern with <= 3 free bands (num_wann <= 2), <= 2 free bands (num_wann = 3), 4 free bands with one free Wannier function; "
+                                  "5: every pattern with <= 2 free bands (num_wann <= 2), every second one for num_wann = 3, 8 patterns with num_wann = 4",
+                            num_wann="1..4", nnb="2; 3 (nband <= 4) and 4 (nband <= 3) with <= 2 free bands", data="as quick",
+                            steps="projection step + up to three composed updates (Z mixing with symbolic mix_ratio) for nnb = 3, 4; two for nnb = 2 where affordable",
+                            eigenvalues="ties included for <= 2 free bands, nband <= 4, nnb = 2",
+                            kpoints="real serial Wannierizer on rings of 2 and 3 k-points with different masks per k-point (214 rings, nband 2..4, num_wann 1..2): "
+                                    "projection step, update_Unb_all, 2-3 update_all iterations in which every neighbour gauge is the U the code produced before",
+                            windows="nband 2..6 symbolic nested windows; list and dict frozen_states (also a dict entry for an absent k-point); default outer window, "
+                                    "default / empty (froz_min > froz_max) frozen window, all defaults; init = amn / random / restart; two k-points (nband 2..3) and "
+                                    "three k-points (nband 2) incl. 'the neighbour masks passed are those of the neighbouring k-point'"))
 EXPLANATION = ("The real Kpoint_and_neighbours (construction = projection step, then update) and the real get_max_eig/orthogonalize run on symbolic overlaps, "
                "projections and neighbour gauges; the three LAPACK calls are replaced by their contracts written with unit-circle atoms (eigh: ascending "
                "eigenvalues + an arbitrary unitary = diag(phases).prod(complex Givens); svd: polar factor), so 'rows of deselected bands vanish', "
@@ -36,7 +44,7 @@ ASSUMPTIONS = ["nfrozen <= num_wann <= nfrozen + number of free bands (otherwise
                "itself an obligation); svd converges and U@VT is the polar factor",
                "windows: outer_min <= froz_min <= froz_max <= outer_max; band energies sorted ascending; explicitly frozen states lie inside the outer window "
                "(wannierise asserts 'Frozen bands should be included in the selected bands')"]
-OUTSIDE = ["convergence / optimality of the iteration (which eigenvectors are the best ones), more than two successive updates",
+OUTSIDE = ["convergence / optimality of the iteration (which eigenvectors are the best ones), more than three successive updates",
            "site-symmetric runs (Symmetrizer_Uirr / Zirr, U_to_full_BZ), mix_ratio_u != 1 (np.linalg.eig branch), ray-parallel execution",
            "orthogonalize falling back to the un-orthogonalised matrix when LAPACK's SVD does not converge",
            "sizes above the stated bounds; rounding (real-number semantics of the code)"]
@@ -232,7 +240,7 @@ def check_lapack_args(rec, who, stage):
     Lin.log.clear()
 
 
-def case_step(rec, nband, nw, pats, nnb, second, strict=False):
+def case_step(rec, nband, nw, pats, nnb, second, strict=False, third=False):
     install()
     Lin.strict = strict
     Mmn = symvec("M", (nnb, nband, nband), real=False)
@@ -242,7 +250,7 @@ def case_step(rec, nband, nw, pats, nnb, second, strict=False):
     ph = symvec("P", (nw, nnb), real=False)
     wb = symvec("wb", (nnb,))
     mix = SymC.var("mix")
-    bk = np.array([[0.5, 0.25, 0.125], [-0.25, 0.5, 1.0], [1.0, -1.0, 0.5]])[:nnb]
+    bk = np.array([[0.5, 0.25, 0.125], [-0.25, 0.5, 1.0], [1.0, -1.0, 0.5], [0.75, 0.5, -0.25]])[:nnb]
     ass = [w.zreal() > 0 for w in wb] + [mix.zreal() > 0, mix.zreal() <= 1]
     for pat in pats:
         frozen = np.array([c == "Z" for c in pat])
@@ -251,7 +259,7 @@ def case_step(rec, nband, nw, pats, nnb, second, strict=False):
         for localise in (True, False):
             def body(rec):
                 Lin.log.clear()
-                rec.witness = lambda env: dict(test="step", pat=pat, nw=nw, nnb=nnb, localise=localise, second=second, Mmn=env.arr(Mmn), amn=env.arr(amn),
+                rec.witness = lambda env: dict(test="step", pat=pat, nw=nw, nnb=nnb, localise=localise, second=second, third=third, Mmn=env.arr(Mmn), amn=env.arr(amn),
                                                Unb=env.arr(Unb), Unb2=env.arr(Unb2), ph=env.arr(ph), wb=[env.val(w) for w in wb], mix=env.val(mix), bk=bk.tolist())
                 kp = KN.Kpoint_and_neighbours(Mmn.copy(), frozen.copy(), frozen_nb.copy(), free.copy(), free_nb.copy(), wb.copy(), bk.copy(), 0,
                                               VoidSymmetrizer(), VoidSymmetrizer(), amn.copy())
@@ -267,7 +275,12 @@ def case_step(rec, nband, nw, pats, nnb, second, strict=False):
                     who = f"{pat} nW={nw} second update(localise={localise}, Z mixing)"
                     check_lapack_args(rec, who, f"second update(localise={localise})")
                     check_gauge(rec, U, frozen, free, nw, who, f"second update(localise={localise})")
-            rec.explore(body, ass, max_seconds=600)
+                if third:
+                    U, wcc, r2 = kp.update([Unb[b] for b in range(nnb)], ph.copy(), localise=localise, mix_ratio=mix)
+                    who = f"{pat} nW={nw} third update(localise={localise}, Z mixing)"
+                    check_lapack_args(rec, who, f"third update(localise={localise})")
+                    check_gauge(rec, U, frozen, free, nw, who, f"third update(localise={localise})")
+            rec.explore(body, ass, max_seconds=3000)
 
 
 def case_stub_validation(rec, seed):
@@ -366,6 +379,174 @@ def case_windows(rec, nband, explicit, as_dict=False):
     rec.explore(body, ass)
 
 
+def _wandata(NK, nband, E, init):
+    """stand-in WannierData with exactly the attributes wannierise() reads before the k-point objects are built"""
+    class Obj:
+        pass
+    wd = Obj()
+    wd.irreducible = False
+    wd.wannierised = init == "restart"
+    wd.mmn = Obj()
+    wd.mmn.NK, wd.mmn.NB = NK, nband
+    wd.mmn.data = {k: np.zeros((1, nband, nband)) for k in range(NK)}
+    wd.eig = Obj()
+    wd.eig.data = {k: E[k] for k in range(NK)}
+    wd.amn = Obj()
+    wd.amn.NW, wd.amn.data, wd.amn.positions = 1, {k: np.zeros((nband, 1)) for k in range(NK)}, None
+    wd.chk = Obj()
+    wd.chk.wannier_centers_cart, wd.chk.num_wann, wd.chk.v_matrix = None, 1, {k: np.zeros((nband, 1)) for k in range(NK)}
+    wd.has_file = lambda name: True
+    wd.bkvec = Obj()
+    wd.bkvec.neighbours = np.array([[(k + 1) % NK] for k in range(NK)])
+    wd.bkvec.bk_cart, wd.bkvec.wk, wd.bkvec.real_lattice = np.array([[0., 0, 1]]), np.array([1.0]), np.eye(3)
+    return wd
+
+
+class _WannierizerStub:
+    got = []
+
+    def __init__(s, **kw):
+        pass
+
+    def add_kpoint(s, **kw):
+        _WannierizerStub.got.append(dict(frozen=np.array(kw["frozen"], dtype=bool), free=np.array(kw["free"], dtype=bool),
+                                         frozen_nb=np.array(kw["frozen_nb"], dtype=bool), free_nb=np.array(kw["free_nb"], dtype=bool)))
+
+    def get_U_opt_full(s):
+        raise _Stop()
+
+
+def _window_kwargs(mode, win, explicit, init):
+    fmin, fmax, omin, omax = win
+    kw = dict(frozen_states=explicit, parallel=False, sitesym=False, init=init)
+    if mode not in ("froz_default", "all_default"):
+        kw.update(froz_min=fmin, froz_max=fmax)
+    if mode not in ("outer_default", "all_default"):
+        kw.update(outer_min=omin, outer_max=omax)
+    if init == "random":
+        kw.update(num_wann=1)
+    return kw
+
+
+def _window_bounds(mode, win):
+    """the windows in force: the documented defaults are an empty frozen window and an unbounded outer window"""
+    fmin, fmax, omin, omax = win
+    if mode in ("froz_default", "all_default"):
+        fmin, fmax = np.inf, -np.inf
+    if mode in ("outer_default", "all_default"):
+        omin, omax = -np.inf, np.inf
+    return fmin, fmax, omin, omax
+
+
+def case_windows2(rec, nband, NK, mode, init="amn", explicit=None):
+    """every mask branch of wannierise(): NK k-points (each the neighbour of the other), default / empty windows, list / dict frozen_states
+    (a dict entry for a k-point that is not in the run is ignored), the three init modes"""
+    import wannierberri.wannierisation.wannierise as W
+    import wannierberri.symmetry.sawf as SAWF
+    shadow([W, UT, SAWF], proxy=NpMasks())
+    W.Wannierizer = _WannierizerStub
+    explicit = explicit if explicit is not None else []
+    E = symvec("E", (NK, nband))
+    win = [SymC.var(n) for n in ("froz_min", "froz_max", "outer_min", "outer_max")]
+    fmin, fmax, omin, omax = _window_bounds(mode, win)
+    zr = lambda x: x.zreal()
+    ass = [zr(E[k, i]) <= zr(E[k, i + 1]) for k in range(NK) for i in range(nband - 1)]
+    outer_given, froz_given = not isinstance(omin, float), not isinstance(fmin, float)
+    if outer_given:
+        ass.append(zr(omin) <= zr(omax))
+    if froz_given:
+        ass.append(zr(fmax) < zr(fmin) if mode == "froz_empty" else zr(fmin) <= zr(fmax))
+        if outer_given:
+            ass += [zr(omin) <= zr(fmin), zr(fmax) <= zr(omax)] if mode != "froz_empty" else []
+    expl = lambda k: [ib for ib in (explicit.get(k, []) if isinstance(explicit, dict) else explicit)]
+    if outer_given:
+        ass += [c for k in range(NK) for ib in expl(k) for c in (zr(omin) <= zr(E[k, ib]), zr(E[k, ib]) <= zr(omax))]
+    import inspect
+    thr = inspect.signature(UT.select_window_degen).parameters["thresh"].default
+
+    def body(rec):
+        _WannierizerStub.got = []
+        wd = _wandata(NK, nband, [E[k].copy() for k in range(NK)], init)
+        rec.witness = lambda env: dict(test="windows2", E=[[env.val(e) for e in E[k]] for k in range(NK)], win=[env.val(x) for x in win], mode=mode, init=init,
+                                       explicit=explicit, NK=NK)
+        try:
+            W.wannierise(wd, **_window_kwargs(mode, win, explicit, init))
+        except _Stop:
+            pass
+        got = _WannierizerStub.got
+        rec.concrete("one k-point object per k-point", len(got) == NK, f"{len(got)}", key="wannierise: wrong number of k-point objects")
+        zb = lambda b: b.t if isinstance(b, SymB) else z3.BoolVal(bool(b))
+        for k in range(min(NK, len(got))):
+            frozen, free = got[k]["frozen"], got[k]["free"]
+            nbk = (k + 1) % NK
+            inw = lambda i, lo, hi: z3.And(zb(E[k, i] >= lo), zb(E[k, i] <= hi))
+            gap = [zb(E[k, i + 1] - E[k, i] < thr) for i in range(nband - 1)]
+            chain = lambda i, j: z3.And(*[gap[m] for m in range(min(i, j), max(i, j))]) if i != j else z3.BoolVal(True)
+            f_out, f_fr, f_in = [], [], []
+            for i in range(nband):
+                ex = i in expl(k)
+                outer_i = z3.Or(*[z3.And(inw(j, omin, omax), chain(i, j)) for j in range(nband)])
+                f_out.append(z3.BoolVal(True) if ex else z3.Implies(z3.Not(outer_i), z3.BoolVal(not frozen[i] and not free[i])))
+                froz_i = z3.And(inw(i, fmin, fmax), *[z3.Implies(chain(i, j), inw(j, fmin, fmax)) for j in range(nband)])
+                f_fr.append(z3.BoolVal(bool(frozen[i])) == (z3.BoolVal(True) if ex else froz_i))
+                f_in.append(z3.Implies(z3.And(outer_i, z3.BoolVal(not frozen[i])), z3.BoolVal(bool(free[i]))))
+            rec.concrete(f"k={k}: frozen and free are disjoint", not (frozen & free).any(), f"{frozen} {free}", key="wannierise: a band is both frozen and free")
+            rec.fact(f"k={k}: bands outside the outer window (and not degenerate with a band inside) are neither frozen nor free", z3.And(*f_out),
+                     key="wannierise: band outside the outer window is selected")
+            rec.fact(f"k={k}: frozen = whole multiplets inside the frozen window (+ explicit frozen_states)", z3.And(*f_fr),
+                     key="wannierise: frozen mask differs from the frozen window")
+            rec.fact(f"k={k}: non-frozen bands of the outer window are free", z3.And(*f_in), key="wannierise: band of the outer window is dropped")
+            if len(got) == NK:
+                ok = np.array_equal(got[k]["frozen_nb"], got[nbk]["frozen"][None, :]) and np.array_equal(got[k]["free_nb"], got[nbk]["free"][None, :])
+                rec.concrete(f"k={k}: neighbour masks are the masks of the neighbouring k-point", ok, key="wannierise: neighbour masks do not belong to the neighbour")
+    rec.explore(body, ass, maxpaths=100000, max_seconds=3000)
+
+
+def case_wannierizer_group(rec, configs):
+    for pats, nw, iters in configs:
+        case_wannierizer(rec, pats, nw, iters)
+
+
+def case_wannierizer(rec, pats, nw, iters, strict=True):
+    """the serial Wannierizer driving several k-points that are each other's neighbours, the way wannierise() does: the neighbour gauges of every
+    iteration are the U matrices the code produced in the previous one (not arbitrary matrices)"""
+    import wannierberri.wannierisation.wannierizer as WZ
+    install()
+    shadow([WZ], proxy=Np(linalg=Lin(np.linalg)))
+    Lin.strict = strict
+    NK, nband = len(pats), len(pats[0])
+    neigh = [[(k + 1) % NK, (k - 1) % NK] for k in range(NK)]
+    nnb = 2
+    Mmn = symvec("M", (NK, nnb, nband, nband), real=False)
+    amn = symvec("A", (NK, nband, nw), real=False)
+    wb = symvec("wb", (nnb,))
+    mix = SymC.var("mix")
+    bk = np.array([[0.5, 0.25, 0.125], [-0.5, -0.25, -0.125]])
+    frozen = np.array([[c == "Z" for c in p] for p in pats])
+    free = np.array([[c == "F" for c in p] for p in pats])
+    ass = [w.zreal() > 0 for w in wb] + [mix.zreal() > 0, mix.zreal() <= 1]
+    for localise in (True, False):
+        def body(rec):
+            Lin.log.clear()
+            rec.witness = lambda env: dict(test="wannierizer", pats=pats, nw=nw, iters=iters, localise=localise, Mmn=env.arr(Mmn), amn=env.arr(amn),
+                                           wb=[env.val(w) for w in wb], mix=env.val(mix), bk=bk.tolist())
+            wz = WZ.Wannierizer(real_lattice=np.eye(3), bk_cart=bk.copy(), parallel=False, symmetrizer=VoidSymmetrizer(NK=NK), wcc_red=np.zeros((nw, 3)))
+            for k in range(NK):
+                wz.add_kpoint(Mmn=Mmn[k].copy(), frozen=frozen[k], frozen_nb=frozen[neigh[k]], free=free[k], free_nb=free[neigh[k]], wb=wb.copy(), bk=bk.copy(),
+                              symmetrizer_Zirr=VoidSymmetrizer(), symmetrizer_Uirr=VoidSymmetrizer(), ikirr=k, amn=amn[k].copy(), weight=1 / NK)
+            U = wz.get_U_opt_full()
+            check_lapack_args(rec, "projection step", "Wannierizer projection step")
+            for k in range(NK):
+                check_gauge(rec, U[k], frozen[k], free[k], nw, f"k={k} {pats[k]} init", "Wannierizer projection step")
+            wz.update_Unb_all([[U[b] for b in neigh[k]] for k in range(NK)])
+            for it in range(iters):
+                U = wz.update_all([[U[b] for b in neigh[k]] for k in range(NK)], mix_ratio=mix, mix_ratio_u=1, localise=localise)
+                check_lapack_args(rec, f"iteration {it}", f"Wannierizer iteration(localise={localise})")
+                for k in range(NK):
+                    check_gauge(rec, U[k], frozen[k], free[k], nw, f"k={k} {pats[k]} iteration {it} localise={localise}", f"Wannierizer iteration(localise={localise})")
+        rec.explore(body, ass, max_seconds=3000)
+
+
 def plan(tier):
     """[(nband, num_wann, second update?, distinct eigenvalues only?, [patterns])] - the cost is driven by the number of free bands (size of the
     arbitrary eigenvector matrix), the number of columns taken from it and num_wann (size of the arbitrary polar factor)"""
@@ -387,19 +568,73 @@ def plan(tier):
     return groups
 
 
+def plan_deep():
+    """additional thorough-tier step groups {(nband, num_wann, nnb, second, third, strict): [patterns]}"""
+    groups = {}
+    add = lambda key, pat: groups.setdefault(key, []).append(pat)
+    for pat, nw in patterns(5, 4, 2):                        # five bands: every pattern with <= 2 free bands
+        nz, nf = pat.count("Z"), pat.count("F")
+        if nw <= 2 or (nw == 3 and sum(i for i, c in enumerate(pat) if c == "Z") % 2 == 0):      # num_wann = 3: every second pattern (5 s each)
+            add((5, nw, 2, nw <= 2, False, True), pat)
+        elif nw == 4 and pat in ("ZZZFD", "DZFZZ", "ZZZFF", "FZZFZ", "ZZFFD", "FDZFZ", "ZZZZF", "ZDFZF"):
+            add((5, 4, 2, False, False, True), pat)         # 4x4 polar factor: 25 s per path, a selection
+    for nband in (2, 3, 4):                                  # more neighbours, three composed updates
+        for pat, nw in patterns(nband, 2, 2):
+            add((nband, nw, 3, True, True, True), pat)
+            if nband <= 3:
+                add((nband, nw, 4, True, True, True), pat)
+    return groups
+
+
+def wannierizer_plan():
+    """[(patterns of the k-points, num_wann, iterations)]: rings of 2 and 3 k-points whose masks differ from k-point to k-point"""
+    out = []
+    for nband, nw, steps in ((2, 1, (1, 2)), (3, 1, (1, 4)), (3, 2, (1, 5)), (4, 2, (7,)), (4, 1, (11,))):
+        pats = [p for p, n in patterns(nband, 2, 2) if n == nw]
+        for st in steps:
+            out += [([pats[i], pats[(i + st) % len(pats)]], nw, 3) for i in range(len(pats))]
+        if nband == 3:
+            out += [([pats[i], pats[(i + 2) % len(pats)], pats[(i + 7) % len(pats)]], nw, 2) for i in range(len(pats))]
+    return out
+
+
 def cases(tier, seed):
     q = tier == "quick"
+    T = 1500 if q else 5400
     out = [Case("stub validation", case_stub_validation, dict(seed=seed))]
     for (nband, nw, second, strict), sel in sorted(plan(tier).items()):
         nchunk = max(1, len(sel) // (8 if q else 3))
         for k in range(nchunk):
             out.append(Case(f"step nband={nband} nW={nw} second={second} distinct-eigenvalues={strict} chunk {k}", case_step,
-                            dict(nband=nband, nw=nw, pats=sel[k::nchunk], nnb=2, second=second, strict=strict), timeout=1500))
+                            dict(nband=nband, nw=nw, pats=sel[k::nchunk], nnb=2, second=second, strict=strict), timeout=T))
     for nband in ((2, 3, 4) if q else (2, 3, 4, 5)):
-        out.append(Case(f"windows nband={nband}", case_windows, dict(nband=nband, explicit=()), timeout=1100))
+        out.append(Case(f"windows nband={nband}", case_windows, dict(nband=nband, explicit=()), timeout=1100 if q else T))
         if not q or nband == 3:
-            out.append(Case(f"windows nband={nband} frozen_states=[{nband - 2}]", case_windows, dict(nband=nband, explicit=(nband - 2,)), timeout=1100))
-            out.append(Case(f"windows nband={nband} frozen_states={{0: [{nband - 1}]}}", case_windows, dict(nband=nband, explicit=(nband - 1,), as_dict=True), timeout=1100))
+            out.append(Case(f"windows nband={nband} frozen_states=[{nband - 2}]", case_windows, dict(nband=nband, explicit=(nband - 2,)), timeout=1100 if q else T))
+            out.append(Case(f"windows nband={nband} frozen_states={{0: [{nband - 1}]}}", case_windows, dict(nband=nband, explicit=(nband - 1,), as_dict=True),
+                            timeout=1100 if q else T))
+    if q:
+        return out
+    # ---- thorough only ----------------------------------------------------------------------------------------
+    for (nband, nw, nnb, second, third, strict), sel in sorted(plan_deep().items()):
+        per = 2 if nw == 4 else (6 if nband == 5 and nw == 3 else 12)
+        nchunk = max(1, -(-len(sel) // per))
+        for k in range(nchunk):
+            out.append(Case(f"step nband={nband} nW={nw} nnb={nnb} updates={1 + second + third} chunk {k}", case_step,
+                            dict(nband=nband, nw=nw, pats=sel[k::nchunk], nnb=nnb, second=second, strict=strict, third=third), timeout=T))
+    wp = wannierizer_plan()
+    for k in range(0, len(wp), 8):
+        out.append(Case(f"wannierizer rings {k}..{min(k + 8, len(wp)) - 1} ({'-'.join(wp[k][0])} nW={wp[k][1]} ...)", case_wannierizer_group, dict(configs=wp[k:k + 8]), timeout=T))
+    out.append(Case("windows nband=6", case_windows2, dict(nband=6, NK=1, mode="nested"), timeout=T))
+    for nband in (2, 3, 4, 5):
+        for mode, init in (("outer_default", "amn"), ("froz_default", "random"), ("all_default", "restart"), ("froz_empty", "amn")):
+            out.append(Case(f"windows nband={nband} {mode} init={init}", case_windows2, dict(nband=nband, NK=1, mode=mode, init=init), timeout=T))
+        out.append(Case(f"windows nband={nband} outer_default frozen_states=[0]", case_windows2, dict(nband=nband, NK=1, mode="outer_default", explicit=[0]), timeout=T))
+    for nband in (2, 3):
+        out.append(Case(f"windows two k-points nband={nband}", case_windows2, dict(nband=nband, NK=2, mode="nested"), timeout=T))
+        out.append(Case(f"windows two k-points nband={nband} frozen_states={{1: [0], 5: [1]}}", case_windows2,
+                        dict(nband=nband, NK=2, mode="nested", explicit={1: [0], 5: [1]}), timeout=T))
+    out.append(Case("windows three k-points nband=2 froz_default", case_windows2, dict(nband=2, NK=3, mode="froz_default"), timeout=T))
     return out
 
 
@@ -416,6 +651,10 @@ def replay(rec):
     w = rec["witness"]
     if w["test"] == "windows":
         return _replay_windows(w)
+    if w["test"] == "windows2":
+        return _replay_windows2(w)
+    if w["test"] == "wannierizer":
+        return _replay_wannierizer(w)
     bad, note = _replay_step(w, 0.0)
     if bad is None:      # the model's (mostly zero) overlaps make the localisation matrix singular: same input, generically perturbed
         bad, note = _replay_step(w, 1e-2)
@@ -472,6 +711,9 @@ def _replay_step(w, eps):
         if w["second"]:
             U, _, _ = kp.update([Unb2[b] for b in range(nnb)], ph.copy(), localise=w["localise"], mix_ratio=mix)
             gauge(U, "second update")
+        if w.get("third"):
+            U, _, _ = kp.update([Unb[b] for b in range(nnb)], ph.copy(), localise=w["localise"], mix_ratio=mix)
+            gauge(U, "third update")
     except np.linalg.LinAlgError:
         singular = True
     except Exception as e:
@@ -551,3 +793,100 @@ def _replay_windows(w):
         if outer_i and not frozen[i] and not free[i]:
             bad.append(f"band {i} of the outer window is dropped")
     return bool(bad), f"E={E.tolist()} frozen window=[{fmin},{fmax}] outer window=[{omin},{omax}] frozen_states={explicit}: frozen={frozen.tolist()} free={free.tolist()} " + "; ".join(bad)
+
+
+def _replay_windows2(w):
+    import wannierberri.wannierisation.wannierise as W
+    import io, contextlib
+    E = np.array(w["E"], dtype=float)
+    NK, nband = E.shape
+    explicit = {int(k): v for k, v in w["explicit"].items()} if isinstance(w["explicit"], dict) else list(w["explicit"])
+    fmin, fmax, omin, omax = _window_bounds(w["mode"], w["win"])
+    real = W.Wannierizer
+    W.Wannierizer = _WannierizerStub
+    _WannierizerStub.got = []
+    try:
+        with contextlib.redirect_stdout(io.StringIO()):
+            W.wannierise(_wandata(NK, nband, E, w["init"]), **_window_kwargs(w["mode"], w["win"], explicit, w["init"]))
+    except _Stop:
+        pass
+    except Exception as e:
+        return True, f"E={E.tolist()} windows={w['win']} mode={w['mode']}: raises {type(e).__name__}: {str(e)[:150]}"
+    finally:
+        W.Wannierizer = real
+    got = _WannierizerStub.got
+    bad = [] if len(got) == NK else [f"{len(got)} k-point objects for {NK} k-points"]
+    for k in range(min(NK, len(got))):
+        frozen, free = got[k]["frozen"], got[k]["free"]
+        ex = explicit.get(k, []) if isinstance(explicit, dict) else explicit
+        gap = (E[k, 1:] - E[k, :-1]) < 1e-2
+        chain = lambda i, j: all(gap[min(i, j):max(i, j)])
+        inw = lambda i, lo, hi: lo <= E[k, i] <= hi
+        for i in range(nband):
+            outer_i = any(inw(j, omin, omax) and chain(i, j) for j in range(nband))
+            froz_i = (inw(i, fmin, fmax) and all(inw(j, fmin, fmax) for j in range(nband) if chain(i, j))) or i in ex
+            if frozen[i] and free[i]:
+                bad.append(f"k={k} band {i} both frozen and free")
+            if not outer_i and i not in ex and (frozen[i] or free[i]):
+                bad.append(f"k={k} band {i} outside the outer window is selected")
+            if bool(frozen[i]) != bool(froz_i):
+                bad.append(f"k={k} band {i}: frozen={bool(frozen[i])}, frozen window says {bool(froz_i)}")
+            if outer_i and not frozen[i] and not free[i]:
+                bad.append(f"k={k} band {i} of the outer window is dropped")
+        nbk = (k + 1) % NK
+        if len(got) == NK and not (np.array_equal(got[k]["frozen_nb"], got[nbk]["frozen"][None, :]) and np.array_equal(got[k]["free_nb"], got[nbk]["free"][None, :])):
+            bad.append(f"k={k}: neighbour masks are not those of k-point {nbk}")
+    return bool(bad), f"E={E.tolist()} frozen window=[{fmin},{fmax}] outer window=[{omin},{omax}] frozen_states={explicit} init={w['init']}: " + "; ".join(bad)
+
+
+def _replay_wannierizer(w):
+    import wannierberri.wannierisation.wannierizer as WZ
+    from symx.harness import unarr
+    rng = np.random.default_rng(2)
+    pats, nw = w["pats"], w["nw"]
+    NK, nband = len(pats), len(pats[0])
+    neigh = [[(k + 1) % NK, (k - 1) % NK] for k in range(NK)]
+    frozen = np.array([[c == "Z" for c in p] for p in pats])
+    free = np.array([[c == "F" for c in p] for p in pats])
+    Mmn, amn = _fill(unarr(w["Mmn"]), rng), _fill(unarr(w["amn"]), rng)
+    wb = np.array([x if x > 0 else 1.0 for x in w["wb"]])
+    mix = w["mix"] if 0 < w["mix"] <= 1 else 0.5
+    bk = np.array(w["bk"])
+    bad = []
+
+    def gauge(U, k, who):
+        U = np.asarray(U)
+        if U.shape != (nband, nw):
+            return bad.append(f"{who}: shape {U.shape}")
+        sel = frozen[k] | free[k]
+        if np.abs(U[~sel]).max(initial=0) > 1e-9:
+            bad.append(f"{who}: |U[deselected]|={np.abs(U[~sel]).max():.2e}")
+        if np.abs(U.conj().T @ U - np.eye(nw)).max() > 1e-9:
+            bad.append(f"{who}: |U+U-1|={np.abs(U.conj().T @ U - np.eye(nw)).max():.2e}")
+        P = np.diag(U @ U.conj().T).real
+        if frozen[k].any() and np.abs(P[frozen[k]] - 1).max() > 1e-9:
+            bad.append(f"{who}: (UU+)_ff={P[frozen[k]].tolist()}")
+    for eps in (0.0, 1e-2):
+        bad.clear()
+        M = Mmn + eps * (rng.normal(size=Mmn.shape) + 1j * rng.normal(size=Mmn.shape))
+        try:
+            wz = WZ.Wannierizer(real_lattice=np.eye(3), bk_cart=bk.copy(), parallel=False, symmetrizer=VoidSymmetrizer(NK=NK), wcc_red=np.zeros((nw, 3)))
+            for k in range(NK):
+                wz.add_kpoint(Mmn=M[k].copy(), frozen=frozen[k], frozen_nb=frozen[neigh[k]], free=free[k], free_nb=free[neigh[k]], wb=wb.copy(), bk=bk.copy(),
+                              symmetrizer_Zirr=VoidSymmetrizer(), symmetrizer_Uirr=VoidSymmetrizer(), ikirr=k, amn=amn[k].copy(), weight=1 / NK)
+            U = wz.get_U_opt_full()
+            for k in range(NK):
+                gauge(U[k], k, f"k={k} init")
+            wz.update_Unb_all([[U[b] for b in neigh[k]] for k in range(NK)])
+            for it in range(w["iters"]):
+                U = wz.update_all([[U[b] for b in neigh[k]] for k in range(NK)], mix_ratio=mix, mix_ratio_u=1, localise=w["localise"])
+                for k in range(NK):
+                    gauge(U[k], k, f"k={k} iteration {it}")
+            break
+        except np.linalg.LinAlgError:
+            if eps:
+                bad.append("np.linalg.inv raises LinAlgError even for generically perturbed overlaps: no gauge is produced")
+        except Exception as e:
+            bad.append(f"raises {type(e).__name__}: {str(e)[:120]}")
+            break
+    return bool(bad), f"Wannierizer patterns {pats} num_wann={nw} localise={w['localise']}: " + ("; ".join(bad) or "all gauge conditions hold to 1e-9")
